@@ -410,6 +410,10 @@ SPECS["C11"] = {
          "what": "2 events on two different sinks, 2 workers", "reach": ["quiescent"],
          "quick": {"params": {"SINKS": 2, "EVENTS": 2, "P": 1}, "two_pass": True, "unwind": 60, "wall_s": 900},
          "thorough": {"params": {"SINKS": 2, "EVENTS": 2, "P": 2}, "two_pass": True, "unwind": 60, "wall_s": 3000}},
+        {"name": "H2-shared-names", "pkg": "interpreter", "files": _C11, "fn": "VerifC11Sinks",
+         "what": "2 events on one sink, 2 workers, the declaration scope optionally defines a variable named event; one pre-emption at ANY sync operation (scope locks included)", "reach": ["quiescent"],
+         "quick": {"params": {"SINKS": 1, "EVENTS": 2, "P": 1, "GLOBALS": 1, "SYNC": 1}, "unwind": 60, "wall_s": 900},
+         "thorough": {"params": {"SINKS": 1, "EVENTS": 2, "P": 2, "GLOBALS": 1, "SYNC": 1}, "unwind": 60, "wall_s": 3000}},
     ],
     "assumptions": ["pre-emptions only at sites the discovery pass reports", "sequential consistency"],
     "outside": ["16 workers", "races inside fmt/logger internals", "calls to shared global functions from sinks"],
@@ -585,6 +589,9 @@ SPECS["C05"] = {
          "quick": {"unwind": 60, "wall_s": 900, "timeout_ms": 5000}, "thorough": {"unwind": 60, "wall_s": 3000}},
         {"name": "H3-builtins", "pkg": "interpreter", "files": _C05, "fn": "VerifC05Builtins",
          "what": "add/del/concat/len vs slice model", "reach": ["evaluated"],
+         "quick": {"unwind": 60, "wall_s": 900}, "thorough": {"unwind": 60, "wall_s": 3000}},
+        {"name": "H3-fresh-lists", "pkg": "interpreter", "files": _C05, "fn": "VerifC05FreshLists",
+         "what": "list of length 0..5 (literal or built by add) as shared argument of two concat calls, then a write through one list: all lists vs a model of independent lists, alias sees the write", "reach": ["evaluated"],
          "quick": {"unwind": 60, "wall_s": 900}, "thorough": {"unwind": 60, "wall_s": 3000}},
         {"name": "H4-objects", "pkg": "interpreter", "files": _C05, "fn": "VerifC05Objects",
          "what": "object with two super templates, init with argument, super constructor, method using this", "reach": ["evaluated"],
